@@ -237,6 +237,23 @@ Definition resize (c : cfg) (s : shard) (cap : N) (vs : list N) : option shard :
 Definition evict_all (c : cfg) (s : shard) (vs : list N) : option shard :=
   evict_oracle c 0 vs s.
 
+(* RawCache::flush (raw.rs, after repair 517c997): evict(0), then every record that is still resident - those the
+   algorithm does not offer as victims while they are referenced (LRU pins them) and zero-weight ones the loop never
+   reaches.  The keys come in the implementation's order; the second phase takes them in hash-table order. *)
+Fixpoint flush_oracle (c : cfg) (vs : list N) (s : shard) : option shard :=
+  match vs with
+  | [] => match idx s with [] => Some s | _ :: _ => None end
+  | k :: vs' =>
+      match lookup k (idx s) with
+      | None => None
+      | Some i =>
+          if (usage s <=? 0) || all_pinned s then flush_oracle c vs' (evict_one c s k i)
+          else if memb i (pinned s) then None
+          else flush_oracle c vs' (evict_one c s k i)
+      end
+  end.
+Definition flush (c : cfg) (s : shard) (vs : list N) : option shard := flush_oracle c vs s.
+
 Definition clone (c : cfg) (s : shard) (h h' : N) : shard :=
   match hlookup h (handles s) with
   | None => s
@@ -252,6 +269,7 @@ Inductive op :=
 | OClear
 | OResize (cap : N) (vs : list N)
 | OEvictAll (vs : list N)
+| OFlush (vs : list N)
 | OClone (h h' : N)
 | ODrop (h : N).
 
@@ -265,6 +283,7 @@ Definition step (c : cfg) (s : shard) (o : op) : option shard :=
   | OClear => Some (clear c s)
   | OResize cap vs => resize c s cap vs
   | OEvictAll vs => evict_all c s vs
+  | OFlush vs => flush c s vs
   | OClone h h' => Some (clone c s h h')
   | ODrop h => Some (drop c s h)
   end.
